@@ -137,7 +137,7 @@ def handleC16 (fields : List String) : Verdict :=
       | some f =>
         let verts := sortStrings (dedupS (es.flatMap (fun e => [e.1, e.2])))
         let k := verts.length
-        if k > 5 then Verdict.badLine "too many vertices for the oracle" else
+        if k > 6 then Verdict.badLine "too many vertices for the oracle" else
         let idxOf := fun (n : String) => (verts.idxOf? n).getD 0
         let edgesI := es.map (fun e => (idxOf e.1, idxOf e.2))
         -- ids: the real tokenizer's, for names the output mentions; fresh ones otherwise
